@@ -99,6 +99,14 @@ theorem dark_never_rounds_up (fpn : Int → Nat → K) (rate f : K) (hf : ¬ 0 <
   rw [dark_no_fpn_eq_floor_rate fpn rate f hf]
   exact ⟨Int.floor_lt.mpr h, Int.floor_le _⟩
 
+/-- the Rule-07 rate as the source computes it (regenerated) is proportional to the pixel AREA: a pixel `c` times larger collects
+`c²` times the dark current, at every temperature and cut-off wavelength (a statement about the translated expression, so an edit
+of the area or unit-conversion factors in the source is seen here) -/
+theorem rule07_rate_scales_with_pixel_area (exp : K → K) (pow : K → K → K) (lit : Nat → Bool → Nat → K) (T cw px c : K) :
+    rule07Rate exp pow lit T cw (c * px) = c * c * rule07Rate exp pow lit T cw px := by
+  simp only [rule07Rate, Gen.rule07Rate]
+  ring
+
 /-- with pattern noise the frame is `floor(rate · fpn)`: non-negative for a non-negative rate (lognormal draws are positive) -/
 theorem dark_fpn_nonneg (fpn : Int → Nat → K) (hfpn : ∀ s i, 0 < fpn s i) (rate f : K) (hr : 0 ≤ rate) (seed : Int) (i : Nat) :
     0 ≤ darkCurrent Int.floor fpn rate f seed i := by
